@@ -81,6 +81,16 @@ def fault_specs(progs, sem, tier, rng):
                 specs.append(psrun.make_spec(p, sem[p["name"]], {"kind": "random", "seed": rng.randrange(1 << 30), "penv": rng.choice([0.4, 0.8])},
                                              name="%s#qv%d" % (p["name"], n), maxjobs=3, queue_check=True,
                                              faults={"%s/%s/%d" % (i["inst"], i["kind"], i["chunk"]): "vanish"}, restart=True))
+        # a later fork of a mapped stage has failed while an earlier fork is still running (the
+        # call counts as running); mrp exits because an independent stage fails too, the running
+        # job dies with it; the restart has to run the failed fork again
+        if p["name"] == "map_and_indep":
+            for call_, first, later in (("A", "TOP.A[0]/main/0", "TOP.A[1]/main/0"), ("D", "TOP.D[0]/main/0", "TOP.D[2]/main/0"),
+                                        ("D", "TOP.D[1]/main/0", "TOP.D[2]/main/0")):
+                for n in range({"quick": 2, "thorough": 8}[tier]):
+                    specs.append(psrun.make_spec(p, sem[p["name"]], {"kind": "random", "seed": rng.randrange(1 << 30), "penv": rng.choice([0.5, 0.8])},
+                                                 name="%s#hf%s%s%d" % (p["name"], call_, first[6], n),
+                                                 faults={later: "errors", "TOP.B[]/main/0": "errors"}, hold=[first], restart=True))
         for n, (key, kind) in enumerate(chosen[:max(per_prog, len(seen))]):
             sc = {"kind": "random", "seed": rng.randrange(1 << 30), "penv": rng.choice([0.3, 0.6, 0.9])}
             specs.append(psrun.make_spec(p, sem[p["name"]], sc, name="%s#f%d" % (p["name"], n),
